@@ -6,17 +6,25 @@ misc/e2image.c (sequential cluster allocation, L1/L2 tables with the L2 cache fl
 add_l2_item / update_refcount bookkeeping) and the literal reader qcow2_write_raw_image() of lib/ext2fs/qcow2.c on small
 constants (L2 tables of 2 entries, refcount blocks of 4 entries, 6..9 blocks, every subset of marked and zero blocks), with
 the contract invariants  QcowToRaw(Qcow(src)) = Raw(src), every cluster of the file used exactly once and refcounted once,
-Raw = src on marked blocks and zero elsewhere.
+Raw = src on marked blocks and zero elsewhere.  The specification states every offset computation of the writers and of the
+reader with the width of the C type it is evaluated in (W*, Shl); the MC_E2image_narrow_* configurations substitute a
+narrower evaluation and TLC must find the contract violation.
 
 Conformance (trace validation): for every base profile of gen/mkbase.py plus generated filesystems whose sizes cross
-qcow2 L2-table and refcount-block boundaries, the built e2image runs in the modes -r, -Q, -r on the qcow2 file, -ra,
+qcow2 L2-table and refcount-block boundaries and sparse filesystems larger than 4 GiB with metadata just below, at and just
+above the byte offsets 2^31 and 2^32 (the boundary catalogue is Part 4 of E2image.tla, enumerated by Emit_E2image), the
+built e2image runs in the modes -r, -Q, -r on the qcow2 file, -ra,
 -Qa and -r on that qcow2 file under LD_PRELOAD=harness/iotrace.so.  Every block of the source is classified with the
 independent reader (reader/ext4read.py: fixed-metadata map + per-inode owner map), the per-class counts of differing /
 non-zero blocks, the tool results (e2fsck -fn, dumpe2fs), this module's own parse of the qcow2 header/L1/L2/refcount
 structures and the system-call record of the source are logged as one ndjson line per run, and TLC validates every line
 against Trace_E2image.tla (the same contract operators the model is checked against).  The verdict of a line is TLC's.
+Second binding (Trace_E2imageLayout.tla): TLC steps the literal writer / reader model with the real constants over the blocks
+the real -Q run mapped and compares the qcow2 file, the direct raw file and the converted file it builds (positions computed
+with the stated widths) with the three real files.  All files are read hole-aware (SEEK_DATA), so a 4 GiB sparse file costs
+what its data costs.
 """
-import os, sys, json, struct, hashlib, shutil, time, re, glob, concurrent.futures as cf
+import os, sys, json, struct, hashlib, shutil, time, re, glob, errno, mmap, collections, concurrent.futures as cf
 from common import VERIF, SCRATCH, NPROC, seed, fast_tmp, tool_env, die_broken
 from common import run as sh
 import build as B, tlc as T, mkbase, ext4read, c19_images
@@ -273,17 +281,113 @@ def qcow2_read_block(d, mapping, b, bs):
 
 
 # ------------------------------------------------------------------------------------------------------------------
+# hole-aware file access (a source of 4.3 GiB with half a megabyte of data must cost half a megabyte)
+# ------------------------------------------------------------------------------------------------------------------
+def _segments(f, size):
+    """(start, end) of the data segments of an open file; the whole file when the filesystem cannot tell"""
+    fd, pos = f.fileno(), 0
+    while pos < size:
+        try:
+            a = os.lseek(fd, pos, os.SEEK_DATA)
+        except OSError as e:
+            if e.errno == errno.ENXIO:
+                return
+            yield pos, size
+            return
+        try:
+            b = os.lseek(fd, a, os.SEEK_HOLE)
+        except OSError:
+            b = size
+        yield a, b
+        pos = b
+
+
+def _chunks(path, align):
+    """(offset, bytes) of the `align`-aligned chunks that intersect a data segment and are not all zero, ascending"""
+    size = os.path.getsize(path)
+    zero = bytes(align)
+    with open(path, "rb") as f:
+        done = 0
+        for a, b in list(_segments(f, size)):
+            pos = max(a - a % align, done)
+            while pos < b:
+                f.seek(pos)
+                d = f.read(align)
+                if not d:
+                    break
+                if d != zero[:len(d)]:
+                    yield pos, d
+                pos += align
+            done = max(done, pos)
+
+
+class BlkFile:
+    """the non-zero blocks of a file (block -> bytes, a short last block padded with zeros); everything else reads as zero"""
+
+    def __init__(self, path, bs):
+        self.bs, self.size, self.nz = bs, os.path.getsize(path), {}
+        z = bytes(bs)
+        step = max(bs, 1 << 18)
+        for off, d in _chunks(path, step):
+            for k in range(0, len(d), bs):
+                x = d[k:k + bs]
+                if len(x) < bs:
+                    x = x + bytes(bs - len(x))
+                if x != z:
+                    self.nz[(off + k) // bs] = x
+        self.zero = z
+
+    def get(self, b):
+        return self.nz.get(b, self.zero)
+
+
+class DictImg:
+    """same interface over a dict block -> bytes (the virtual disk of a qcow2 file)"""
+
+    def __init__(self, blocks, bs):
+        z = bytes(bs)
+        self.bs, self.zero, self.nz = bs, z, {b: d for b, d in blocks.items() if d != z}
+
+    def get(self, b):
+        return self.nz.get(b, self.zero)
+
+
+def content_digest(path):
+    """digest of size + content that never reads holes (chunk boundaries are absolute, all-zero chunks are skipped: a function
+    of the bytes of the file only)"""
+    h = hashlib.sha256()
+    h.update(b"%d\n" % os.path.getsize(path))
+    for off, d in _chunks(path, 1 << 16):
+        h.update(b"%d:%d\n" % (off, len(d)))
+        h.update(d)
+    return h.hexdigest()
+
+
+class _MapReader(ext4read.Reader):
+    """the independent reader on a memory map (reader/ext4read.py loads at most 1 GiB of the image)"""
+
+    def __init__(self, path):
+        self._f = open(path, "rb")
+        self.img = mmap.mmap(self._f.fileno(), 0, access=mmap.ACCESS_READ)
+        self.size = len(self.img)
+        self.err = {}
+        self.loc = {}
+        self.short_reads = 0
+
+
+def project_any(path):
+    if os.path.getsize(path) <= ext4read.Reader.MAX_IMAGE:
+        return ext4read.project(path)
+    try:
+        r = _MapReader(path)
+    except Exception as ex:
+        return {"fatal": "open:%s:%s" % (type(ex).__name__, ex)}
+    return r.project()
+
+
+# ------------------------------------------------------------------------------------------------------------------
 # running the tools
 # ------------------------------------------------------------------------------------------------------------------
-def sha_file(p):
-    h = hashlib.sha256()
-    with open(p, "rb") as f:
-        while True:
-            b = f.read(1 << 20)
-            if not b:
-                break
-            h.update(b)
-    return h.hexdigest()
 
 
 def e2image(build, env, args, src, dst, work, tag):
@@ -326,25 +430,22 @@ def tool_outputs(build, env, img):
             "dump_err": norm_tool(e2.decode("utf8", "replace"), img)}
 
 
-def count_classes(cls, src, img, bs, nblocks):
+def count_classes(cls, S, I, nblocks):
     """per class: n blocks, srcnz = non-zero in the source, diff = image block != source block, imgnz = image block non-zero
-    (a block beyond the end of the image file reads as zero)"""
-    z = bytes(bs)
+    (a block beyond the end of the image file reads as zero); S, I: BlkFile / DictImg"""
     out = {c: {"n": 0, "srcnz": 0, "diff": 0, "imgnz": 0} for c in CLASSES}
     first_diff = {}
-    for b in range(nblocks):
-        s = src[b * bs:(b + 1) * bs]
-        i = img[b * bs:(b + 1) * bs]
-        if len(i) < bs:
-            i = i + bytes(bs - len(i))
-        r = out[cls[b]]
-        r["n"] += 1
-        if s != z:
-            r["srcnz"] += 1
-        if i != z:
-            r["imgnz"] += 1
-        if i != s:
-            r["diff"] += 1
+    for c, k in collections.Counter(cls).items():
+        out[c]["n"] = k
+    for b in S.nz:
+        if b < nblocks:
+            out[cls[b]]["srcnz"] += 1
+    for b in I.nz:
+        if b < nblocks:
+            out[cls[b]]["imgnz"] += 1
+    for b in sorted(S.nz.keys() | I.nz.keys()):
+        if b < nblocks and S.get(b) != I.get(b):
+            out[cls[b]]["diff"] += 1
             first_diff.setdefault(cls[b], b)
     return out, first_diff
 
@@ -361,27 +462,22 @@ TOOLS0 = {"have": 0, "fsck_src": 0, "fsck_img": 0, "fsck_eq": 0, "dump_rc_src": 
 
 
 def virtual_image(qd, mapping, bs, nblocks):
-    """the bytes a reader of the qcow2 file sees, through this module's own parse of the mapping"""
-    out = bytearray(nblocks * bs)
-    for b, c in mapping.items():
-        if b < nblocks:
-            out[b * bs:(b + 1) * bs] = qd[c * bs:(c + 1) * bs]
-    return bytes(out)
+    """the blocks a reader of the qcow2 file sees, through this module's own parse of the mapping"""
+    return DictImg({b: qd[c * bs:(c + 1) * bs] for b, c in mapping.items() if b < nblocks}, bs)
 
 
-def compare_conv(conv_path, ref_path, q, bs, nblocks):
-    a = open(conv_path, "rb").read()
-    r = open(ref_path, "rb").read()
+def compare_conv(A, R, q, bs, nblocks):
+    """A: the converted file, R: the directly produced raw file (BlkFile)"""
     c = dict(CONV0)
     c["have"] = 1
-    c["size_eq"] = int(len(a) == len(r))
-    c["eq"] = int(a == r)
-    if a != r and len(a) == len(r):
+    c["size_eq"] = int(A.size == R.size)
+    c["eq"] = int(A.size == R.size and A.nz == R.nz)
+    if not c["eq"] and c["size_eq"]:
         l2n = bs // 8
         l1 = q["_l1"]
         z = bytes(bs)
-        for b in range(nblocks):
-            x, y = a[b * bs:(b + 1) * bs], r[b * bs:(b + 1) * bs]
+        for b in sorted(A.nz.keys() | R.nz.keys()):
+            x, y = A.get(b), R.get(b)
             if x == y:
                 continue
             c["neq_blocks"] += 1
@@ -393,9 +489,19 @@ def compare_conv(conv_path, ref_path, q, bs, nblocks):
     return c
 
 
+def file_obs(F, S, index):
+    """the non-zero blocks of an output file as [position, id]: id - 1 = the source block whose bytes the position holds (the
+    position itself when it matches, else the smallest source block with these bytes), -1 = bytes of no source block"""
+    out = []
+    for p in sorted(F.nz):
+        d = F.nz[p]
+        out.append([p, p + 1 if S.nz.get(p) == d else index.get(d, -2) + 1])
+    return out
+
+
 def observe(build, env, name, src, work, want_modes=None):
     """run every mode on one source filesystem; returns (lines, info)"""
-    P = ext4read.project(src)
+    P = project_any(src)
     info = {"image": name}
     if "fatal" in P or P.get("reader_err"):
         info["skipped"] = "reader could not project the source: %s" % (P.get("fatal") or P.get("reader_err"))
@@ -407,12 +513,14 @@ def observe(build, env, name, src, work, want_modes=None):
         return [], info
     g = P["geo"]
     bs, nblocks = g["bs"], g["blocks"]
-    sdata = open(src, "rb").read()
-    sha0 = hashlib.sha256(sdata).hexdigest()
+    S = BlkFile(src, bs)
+    sha0 = content_digest(src)
     t_src = tool_outputs(build, env, src)
     lines = []
     paths = {}
+    files = {}
     qfacts = {}
+    by_mode = {}
     if want_modes:
         want_modes = set(want_modes)
         for m, deps in (("q2r", ("qcow", "raw")), ("qall2r", ("qall", "all"))):
@@ -431,11 +539,12 @@ def observe(build, env, name, src, work, want_modes=None):
         if from_mode:
             # the input of a conversion is the qcow2 file; the filesystem itself is not an operand of this run
             io = {"opens": max(1, io["opens"]), "rw_opens": io["rw_opens"], "writes": io["writes"]}
-        io["sha_eq"] = int(sha_file(src) == sha0)
+        io["sha_eq"] = int(content_digest(src) == sha0)
         line = {"e": "Run", "id": "%s/%s" % (name, mode), "image": name, "mode": mode, "rc": rc,
                 "geo": {"bs": bs, "blocks": nblocks, "first": g["first"], "cr": g["cr"]},
                 "io": io, "tools": dict(TOOLS0), "q": dict(QZERO), "conv": dict(CONV0), "tree_eq": -1, "len_eq": 0,
                 "cls": {c: {"n": 0, "srcnz": 0, "diff": 0, "imgnz": 0} for c in CLASSES}, "first_diff": {}}
+        by_mode[mode] = line
         if rc != 0 or not os.path.exists(dst):
             line["msg"] = msg[-300:]
             lines.append(line)
@@ -447,14 +556,17 @@ def observe(build, env, name, src, work, want_modes=None):
             line["q"] = {k: q[k] for k in QZERO}
             line["qbad"] = q["bad"]
             line["_layout"] = layout_obs(q, mapping, bs, nblocks)
-            idata = virtual_image(qd, mapping, bs, nblocks)
+            I = virtual_image(qd, mapping, bs, nblocks)
+            del qd
         else:
-            idata = open(dst, "rb").read()
+            I = files[mode] = BlkFile(dst, bs)
         if mode in ("q2r", "qall2r"):
-            ref = paths["raw" if mode == "q2r" else "all"]
-            line["conv"] = compare_conv(dst, ref, qfacts[from_mode], bs, nblocks)
-            line["q"] = {k: qfacts[from_mode][k] for k in QZERO}
-        cnt, fd = count_classes(cls, sdata, idata, bs, nblocks)
+            ref = "raw" if mode == "q2r" else "all"
+            if ref in files and from_mode in qfacts:
+                line["conv"] = compare_conv(I, files[ref], qfacts[from_mode], bs, nblocks)
+            if from_mode in qfacts:
+                line["q"] = {k: qfacts[from_mode][k] for k in QZERO}
+        cnt, fd = count_classes(cls, S, I, nblocks)
         line["cls"] = cnt
         line["first_diff"] = fd
         if mode in ("raw", "all"):
@@ -465,10 +577,27 @@ def observe(build, env, name, src, work, want_modes=None):
             if not line["tools"]["fsck_eq"] or not line["tools"]["dump_eq"]:
                 line["tool_diff"] = {"fsck_img": t["fsck_out"][-400:], "fsck_src": t_src["fsck_out"][-400:]}
         if mode == "all":
-            P2 = ext4read.project(dst)
+            P2 = project_any(dst)
             if "tree" in P2 and "tree" in P:
                 line["tree_eq"] = int(P2["tree"] == P["tree"])
         lines.append(line)
+    # the layout observation of a qcow2 file is completed with the two raw-format files that belong to it
+    index = None
+    for qm, rm, cm in (("qcow", "raw", "q2r"), ("qall", "all", "qall2r")):
+        l = by_mode.get(qm)
+        if not l or not l.get("_layout"):
+            continue
+        if rm not in files or cm not in files:
+            l["_layout"] = None           # a run failed: the line trace reports it
+            continue
+        if index is None:
+            index = {}
+            for b in sorted(S.nz, reverse=True):
+                index[S.nz[b]] = b
+        for key, m in (("raw", rm), ("conv", cm)):
+            F = files[m]
+            l["_layout"][key] = file_obs(F, S, index)
+            l["_layout"][key + "_blocks"] = F.size // bs if F.size % bs == 0 else -1
     for p in paths.values():
         try:
             os.unlink(p)
@@ -482,36 +611,47 @@ def observe(build, env, name, src, work, want_modes=None):
 # ------------------------------------------------------------------------------------------------------------------
 # layout binding: TLC runs the literal writer model with the real constants of one image (Trace_E2imageLayout.tla)
 # ------------------------------------------------------------------------------------------------------------------
-LAYOUT_MAX_BLOCKS = 4100
+LAYOUT_MAX_MAPPED = 4000          # cost grows with mapped blocks x file clusters
+LAYOUT_MAX_CLUSTERS = 6000
+LAYOUT_QUICK_CLUSTERS = 1300
+LAYOUT_WHAT = {"LayoutMatches": "the qcow2 file is not the file the writer model builds",
+               "RawMatches": "the direct raw image is not the file the raw writer of the specification builds (position / content of a block)",
+               "ConvMatches": "the converted image is not the file the reader of the specification builds: a cluster was copied to a position other than (l1_index * l2_size + l2_index) << cluster_bits evaluated in 64 bits, or with other content",
+               "LConvertEqualsRaw": "on the blocks the real -Q image maps, the model's converted file differs from its raw file"}
+LAYOUT_INV = ("WriterSane", "RefcountExact", "L2TablesDistinct", "LMapExact", "LConvertEqualsRaw", "LayoutMatches", "RawMatches", "ConvMatches")
 
 
 def layout_obs(q, mapping, bs, nblocks):
-    """None when the image is outside the model's assumptions (L1 / refcount table of one cluster) or too large to step through"""
-    if nblocks > LAYOUT_MAX_BLOCKS or q["l1c"] != 1 or q["rtc"] != 1 or q["overlap"]:
+    """None when the image is outside the model's assumptions (refcount table of one cluster) or too large to step through"""
+    if q["rtc"] != 1 or q["overlap"] or len(mapping) > LAYOUT_MAX_MAPPED or q["file_clusters"] > LAYOUT_MAX_CLUSTERS or not mapping:
+        return None
+    if nblocks >= 1 << 31 or max(mapping) >= nblocks:
         return None
     rt = list(q["_rt"])
     while rt and rt[-1] == 0:
         rt.pop()
-    return {"map": [mapping.get(b, 0) for b in range(nblocks)], "l1": [e // bs for e in q["_l1"]], "rt": rt,
-            "file_clusters": q["file_clusters"], "nb": nblocks, "l2n": bs // 8, "rpb": bs // 2, "l1n": q["l1n"]}
+    return {"map": [[b, mapping[b]] for b in sorted(mapping)], "l1": [e // bs for e in q["_l1"]], "rt": rt,
+            "file_clusters": q["file_clusters"], "nb": nblocks, "l2n": bs // 8, "rpb": bs // 2, "l1n": q["l1n"], "cbits": q["cbits"]}
 
 
-def validate_layout(obs, work, tag):
+def validate_layout(obs, work, tag, covers=False):
     """returns (ok, TlcResult); dies when TLC itself fails"""
     cfg = os.path.join(work, "layout_%s.cfg" % tag)
     with open(cfg, "w") as f:
         f.write("SPECIFICATION LSpec\nCONSTANTS\n  NB = %d\n  L2N = %d\n  RPB = %d\n  CacheN = %d\n  MClasses = {\"free\"}\n  AllModes = {FALSE}\n"
                 % (obs["nb"], obs["l2n"], obs["rpb"], min(obs["l1n"], 512)))
         f.write("".join("  %s = FALSE\n" % d for d in DEVS))
-        f.write("  MaxC <- ObsMaxC\n")
-        f.write("".join("INVARIANT %s\n" % i for i in ("WriterSane", "MapExact", "RefcountExact", "L2TablesDistinct", "ConvertEqualsRaw", "LayoutMatches")))
+        f.write("  MaxC <- ObsMaxC\n  CBits <- ObsCBits\n")
+        f.write("".join("INVARIANT %s\n" % i for i in LAYOUT_INV + (("Covers",) if covers else ())))
         f.write("POSTCONDITION LayoutDone\nCHECK_DEADLOCK FALSE\n")
     tp = os.path.join(work, "layout_%s.ndjson" % tag)
     with open(tp, "w") as f:
-        f.write(json.dumps({k: obs[k] for k in ("map", "l1", "rt", "file_clusters")}) + "\n")
+        f.write(json.dumps({k: obs[k] for k in ("map", "l1", "rt", "file_clusters", "cbits", "raw", "conv", "raw_blocks", "conv_blocks")}) + "\n")
     r = T.tlc(os.path.join(SPEC, "Trace_E2imageLayout.tla"), cfg, workers=1, timeout=900, env={"TRACE": tp}, xmx="3g")
     if r.error or r.violated == "POSTCONDITION" or (r.rc != 0 and r.violated is None):
         die_broken("TLC failed on the layout trace %s: %s\n%s" % (tag, r.error or r.violated, r.out[-2500:]))
+    if r.violated == "Covers":
+        die_broken("the filesystem %s does not realise the boundary catalogue of E2image.tla (a target block of WidthTargets is not in the image)" % tag)
     return r.violated is None, r
 
 
@@ -543,15 +683,20 @@ def validate(lines, work, devs=(), tag="t"):
     if not r.ok:
         die_broken("TLC failed on the trace (%s): %s\n%s" % (tag, r.error or r.violated, r.out[-2500:]))
     bad = {}
-    for m in re.finditer(r'<<"BADLINE", (\d+), (\{[^}]*\}), (\{[^}]*\})>>', r.out):
+    # (TLC breaks a long tuple over several lines: << "BADLINE",\n   6, ...)
+    for m in re.finditer(r'<<\s*"BADLINE",\s*(\d+),\s*(\{[^}]*\}),\s*(\{[^}]*\})\s*>>', r.out):
         bad[int(m.group(1)) - 1] = (re.findall(r'"(\w+)"', m.group(2)), re.findall(r'"(\w+)"', m.group(3)))
+    if len(bad) != r.out.count('"BADLINE"'):
+        die_broken("could not read every BADLINE of TLC's output (%s): %d parsed, %d printed" % (tag, len(bad), r.out.count('"BADLINE"')))
     return bad, r
 
 
-MC_QUICK = [("MC_E2image_quick.cfg", True), ("MC_E2image_dense.cfg", True)]
-MC_THOROUGH = [("MC_E2image.cfg", True), ("MC_E2image_dense.cfg", True), ("MC_E2image_dense9.cfg", True), ("MC_E2image_l2n4.cfg", True),
-               ("MC_E2image_literal.cfg", True), ("MC_E2image_literal_reach.cfg", False), ("MC_E2image_literal_lastbyte.cfg", False),
-               ("MC_E2image_literal_ea.cfg", False)]
+# (cfg, None = every invariant must hold | name of the invariant TLC must find violated)
+MC_QUICK = [("MC_E2image_quick.cfg", None), ("MC_E2image_dense.cfg", None), ("MC_E2image_narrow_offout.cfg", "ConvertEqualsRaw")]
+MC_THOROUGH = [("MC_E2image.cfg", None), ("MC_E2image_dense.cfg", None), ("MC_E2image_dense9.cfg", None), ("MC_E2image_l2n4.cfg", None),
+               ("MC_E2image_literal.cfg", None), ("MC_E2image_literal_reach.cfg", "DevReachable"), ("MC_E2image_literal_lastbyte.cfg", "DevReachable"),
+               ("MC_E2image_literal_ea.cfg", "DiscoveryOK"), ("MC_E2image_narrow_offout.cfg", "ConvertEqualsRaw"),
+               ("MC_E2image_narrow_rawpos.cfg", "RawContract"), ("MC_E2image_narrow_srcpos.cfg", "RawContract")]
 
 
 def model_check(ev, tier):
@@ -559,22 +704,32 @@ def model_check(ev, tier):
     jobs = MC_QUICK if tier == "quick" else MC_THOROUGH
 
     def one(j):
-        cfg, expect_ok = j
+        cfg, expect = j
         return j, T.tlc(os.path.join(SPEC, "E2image.tla"), os.path.join(SPEC, cfg), workers=2 if tier == "quick" else 4, timeout=2400, xmx="4g")
     with cf.ThreadPoolExecutor(max_workers=2) as ex:
-        for (cfg, expect_ok), r in ex.map(one, jobs):
+        for (cfg, expect), r in ex.map(one, jobs):
             if r.error:
                 die_broken("TLC on %s: %s\n%s" % (cfg, r.error, r.out[-1500:]))
-            if expect_ok and not r.ok:
+            if expect is None and not r.ok:
                 die_broken("model %s: invariant %s violated -- the specification does not satisfy its own contract\n%s" % (cfg, r.violated, r.out[-1500:]))
-            if not expect_ok and r.violated is None:
-                die_broken("model %s: the deviation it demonstrates is not reachable any more (expected an invariant violation)" % cfg)
-            ev.add_tlc(r, cfg + ("" if expect_ok else " (expected violation of %s: the named deviation is reachable)" % r.violated))
+            if expect is not None and r.violated != expect:
+                die_broken("model %s: TLC was expected to find %s violated (the deviation / narrow evaluation it demonstrates must break exactly that), found %s" % (cfg, expect, r.violated))
+            ev.add_tlc(r, cfg + ("" if expect is None else " (expected violation of %s: reachable)" % r.violated))
             res.append((cfg, r.distinct, r.generated))
     return res
 
 
-def source_images(build, tier):
+def load_catalogue(work):
+    """the boundary catalogue (E2image.tla Part 4), enumerated by TLC"""
+    out = os.path.join(work, "catalogue.json")
+    r = T.tlc(os.path.join(SPEC, "Emit_E2image.tla"), os.path.join(SPEC, "Emit_E2image.cfg"), workers=1, timeout=300, env={"OUT": out}, xmx="1g")
+    if not r.ok or not os.path.exists(out):
+        die_broken("TLC could not enumerate the boundary catalogue (Emit_E2image): %s\n%s" % (r.error, r.out[-1500:]))
+    return json.load(open(out))
+
+
+def source_images(build, tier, cat):
+    """returns (images [(name, path)], skipped [(name, why)], wide {name: catalogue entry})"""
     bdir, bmeta = mkbase.base_images(build)
     out, skipped = [], []
     for n, i in bmeta.items():
@@ -582,15 +737,20 @@ def source_images(build, tier):
             out.append((n, os.path.join(bdir, n + ".img")))
         else:
             skipped.append((n, "base profile does not pass e2fsck -fn"))
-    names = c19_images.EXTRA + c19_images.SIZES_QUICK + (c19_images.SIZES_MORE if tier == "thorough" else [])
-    xdir, xmeta = c19_images.images(build, names)
+    sizes = cat["sizes_quick"] + (cat["sizes_more"] if tier == "thorough" else [])
+    wide = {c19_images.wide_name(e): e for e in cat["wide_quick"] + (cat["wide_more"] if tier == "thorough" else [])}
+    names = c19_images.EXTRA + sorted(c19_images.size_name(e) for e in sizes) + sorted(wide)
+    xdir, xmeta = c19_images.images(build, names, wide)
     for n in names:
         i = xmeta[n]
         if not i.get("ok"):
-            skipped.append((n, "mke2fs refused or e2fsck -fn not clean: %s" % (i.get("mke2fs_err") or i.get("fsck_out") or "")[-120:]))
+            why = "mke2fs refused or e2fsck -fn not clean: %s" % (i.get("mke2fs_err") or i.get("fsck_out") or "")[-200:]
+            if n in wide:
+                die_broken("the filesystem %s of the boundary catalogue could not be built: %s" % (n, why))
+            skipped.append((n, why))
             continue
         out.append((n, os.path.join(xdir, n + ".img")))
-    return out, skipped
+    return out, skipped, wide
 
 
 def run(tier):
@@ -609,7 +769,8 @@ def run(tier):
     try:
         with cf.ThreadPoolExecutor(max_workers=1) as mcx:
             mc_future = mcx.submit(model_check, ev, tier)
-            imgs, skipped = source_images(build, tier)
+            cat = load_catalogue(work)
+            imgs, skipped, wide = source_images(build, tier, cat)
             lines, infos = [], []
 
             def one(a):
@@ -621,6 +782,8 @@ def run(tier):
                     infos.append(info)
             for info in infos:
                 if info.get("skipped"):
+                    if info["image"] in wide:
+                        die_broken("the filesystem %s of the boundary catalogue could not be observed: %s" % (info["image"], info["skipped"]))
                     skipped.append((info["image"], info["skipped"]))
             if not lines:
                 die_broken("no source filesystem could be observed")
@@ -662,14 +825,18 @@ def run(tier):
                                                                           (" (block classes %s, first differing block per class %s)" % (sorted(classes), {c: l["first_diff"].get(c) for c in classes})) if classes else "",
                                                                           (" -- behaviour of the named deviation %s" % dev) if dev else "")
                 vd.violation(key, what, {"image": l["image"], "mode": l["mode"], "line": strip_line(l), "first_diff": l.get("first_diff"), "detail": {k: l.get(k) for k in ("msg", "qbad", "tool_diff") if l.get(k)}})
-            # second binding: the literal writer model, run with the real constants, must build the very file e2image wrote
-            # (cost grows with blocks x file clusters: filesystems up to LAYOUT_MAX_BLOCKS blocks; quick takes the -Q files, thorough also the -Qa files)
+            # second binding: the literal writer / reader model, run with the real constants, must build the very files e2image wrote
+            # (cost grows with mapped blocks x file clusters; quick takes the -Q files up to LAYOUT_QUICK_CLUSTERS clusters, thorough also the -Qa files)
+            for n in wide:
+                for l in lines:
+                    if l["image"] == n and l["mode"] == "qcow" and l["rc"] == 0 and not l.get("_layout"):
+                        die_broken("the -Q image of %s is outside the assumptions of the layout model (refcount table clusters %d, %d mapped blocks)" % (n, l["q"]["rtc"], l["q"]["mapped"]))
             lay = [l for l in lines if l.get("_layout") and l["rc"] == 0 and
-                   ((tier == "thorough" and l["q"]["file_clusters"] <= 1300) or (l["mode"] == "qcow" and l["q"]["file_clusters"] <= 1300))]
+                   (tier == "thorough" or (l["mode"] == "qcow" and (l["q"]["file_clusters"] <= LAYOUT_QUICK_CLUSTERS or l["image"] in wide)))]
 
             def lay_one(l):
-                return l, validate_layout(l["_layout"], work, l["id"].replace("/", "_"))
-            lay_ok = 0
+                return l, validate_layout(l["_layout"], work, l["id"].replace("/", "_"), covers=l["image"] in wide and l["mode"] == "qcow")
+            lay_ok = lay_bad = 0
             lay_walls = {}
             with cf.ThreadPoolExecutor(max_workers=4) as ex:
                 for l, (ok, r) in ex.map(lay_one, lay):
@@ -679,18 +846,21 @@ def run(tier):
                     if ok:
                         lay_ok += 1
                         continue
-                    ls2, _ = observe(build, env, l["image"], paths[l["image"]], work, want_modes={l["mode"]})
+                    ls2, _ = observe(build, env, l["image"], paths[l["image"]], work, want_modes={"q2r" if l["mode"] == "qcow" else "qall2r"})
                     l2 = [x for x in ls2 if x["mode"] == l["mode"]][0]
                     ok2, r2 = validate_layout(l2["_layout"], work, "confirm") if l2.get("_layout") else (True, None)
                     if not ok2:
+                        lay_bad += 1
                         vd.violation("layout|%s|%s" % (l["id"], r2.violated),
-                                     "e2image %s on %s: the qcow2 file is not the file the writer model builds (invariant %s of Trace_E2imageLayout)" % (l["mode"], l["image"], r2.violated),
-                                     {"image": l["image"], "mode": l["mode"], "layout": {k: l2["_layout"][k] for k in ("l1", "rt", "file_clusters", "nb", "l2n", "rpb")}})
-            ev.cov["layout_traces"] = {"wall_s": lay_walls, "run": len(lay), "accepted": lay_ok, "what": "literal writer model stepped with the real constants; every block's data cluster, L1 and refcount table entries and the file size equal the real file"}
+                                     "e2image %s on %s: %s (invariant %s of Trace_E2imageLayout)" % (l["mode"], l["image"], LAYOUT_WHAT.get(r2.violated, "the files are not the files the writer / reader model builds"), r2.violated),
+                                     {"image": l["image"], "mode": l["mode"], "layout": {k: (l2["_layout"][k] if k in ("file_clusters", "nb", "l2n", "rpb", "cbits") or len(l2["_layout"][k]) <= 400 else "(%d entries)" % len(l2["_layout"][k]))
+                                                                                          for k in ("map", "l1", "rt", "raw", "conv", "file_clusters", "nb", "l2n", "rpb", "cbits")}})
+                    else:
+                        lay_ok += 1
+            ev.cov["layout_traces"] = {"wall_s": lay_walls, "run": len(lay), "accepted": lay_ok, "what": "literal writer / reader model stepped with the real constants over the mapped blocks; every block's data cluster, L1 and refcount table entries and the file size equal the real qcow2 file; position and content of every non-zero block of the direct raw file and of the converted file equal RawFile / ConvFile (offsets evaluated with the stated widths)"}
             ev.cov["phase_wall_s"]["layout"] = round(time.time() - ev.t0, 1)
             mc = mc_future.result()
             ev.cov["phase_wall_s"]["model_checking_done"] = round(time.time() - ev.t0, 1)
-        nbad = len(confirmed) + (len(lay) - lay_ok)
         ev.cov["evaluations"] = len(lines)
         ev.cov["traces_validated_against_impl"] = len(lines) - len(confirmed) + lay_ok
         ev.cov["source_filesystems"] = len([i for i in infos if not i.get("skipped")])
@@ -710,6 +880,10 @@ def run(tier):
             "images_with_partial_last_l2_table": len({l["image"] for l in lines if l["mode"] == "qcow" and l["geo"]["blocks"] % max(1, l["q"]["l2n"])}),
             "images_with_l2_tables_beyond_virtual_size": sorted({l["id"] for l in lines if l["q"]["l2_beyond_virtual"] > 0 and l["mode"] in ("qcow", "qall")}),
             "images_flushing_the_l2_cache": sorted({l["id"] for l in lines if l["q"]["l2_tables"] > 512 and l["mode"] in ("qcow", "qall")})}
+        ev.cov["width_boundaries"] = {
+            "catalogue": {n: {"bs": e["bs"], "blocks": e["blocks"], "targets": e["targets"]} for n, e in wide.items()}, "byte_offsets": ["2^%d" % b for b in cat["boundary_bits"]],
+            "mapped_blocks_at_or_beyond_2^32": {l["id"]: sum(1 for b, c in l["_layout"]["map"] if b * l["geo"]["bs"] >= 1 << 32) for l in lines if l["image"] in wide and l.get("_layout")},
+            "what": "TLC (invariant Covers of Trace_E2imageLayout) confirms that every target block is mapped by the -Q image of the filesystem"}
         ev.cov["rule"] = ("one evaluation = one run of e2image (image x mode) judged by TLC; non-trivial = (source image, block class) pairs with at least one "
                           "non-zero block of that class in a metadata-image run, i.e. places where leaving the class out would be seen")
         for l in lines[:3]:
@@ -726,7 +900,9 @@ ASSUMPTIONS = [
     "qcow2 images are judged through this check's own parser of the header / L1 / L2 / refcount structures (e2fsck and dumpe2fs cannot open qcow2; their outputs are compared on the raw-format images, and the converted image is compared byte-for-byte with the direct raw image)",
     "the image file is a new regular file (e2image then treats all-zero blocks as holes); -b, -o/-O, -c, -s, -I, -p, stdout output, block-device targets and the old 'normal' image format are not exercised",
     "bigalloc: the block map of e2image has cluster granularity, unowned blocks sharing a cluster with a copied block ('mate') are unconstrained",
-    "images in the model: L1 table and refcount table of one cluster each; in the conformance runs the L1 table stays below one refcount block (filesystems up to 160 MiB)",
+    "images in the model and in the layout traces: refcount table of one cluster (the L1 table takes the clusters its size needs); qcow2 files stay far below 2 GiB",
+    "integer-width boundaries: the universe reaches byte offsets 2^31 and 2^32 of the filesystem (raw file positions, virtual offsets of the qcow2 image, read positions in the source) on sparse filesystems of 4.25 GiB; block numbers >= 2^31 (2 TiB at 1 KiB blocks) and qcow2 file offsets >= 2^31 (2 GiB of imaged blocks) are not reached",
+    "files are compared hole-aware: a block inside a hole is a zero block (SEEK_DATA / SEEK_HOLE; on a filesystem without them the whole file is read)",
 ]
 
 
@@ -738,7 +914,7 @@ def replay(path):
     env = tool_env(build)
     work = fast_tmp()
     try:
-        imgs, _ = source_images(build, "thorough")
+        imgs, _, _ = source_images(build, "thorough", load_catalogue(work))
         paths = dict(imgs)
         if name not in paths:
             print("image %s not available" % name)
